@@ -99,6 +99,8 @@ class BfsResult(object):
 def bfs(machine, max_depth=None, jobs=None, repo_root="/repo", validate_merges=1000,
         time_cap=None, state_cap=None):
     jobs = jobs or int(os.environ.get("VERIF_MC_JOBS", "0")) or min(16, os.cpu_count() or 1)
+    if os.environ.get("VERIF_MC_MAX_CAP"):         # an operator-imposed ceiling on every search (reported as a cap when hit)
+        time_cap = min(time_cap or 1e9, float(os.environ["VERIF_MC_MAX_CAP"]))
     _M.update(machine=machine, repo_root=os.path.abspath(repo_root))
     res = BfsResult()
     t0 = time.time()
